@@ -259,9 +259,13 @@ func extractTermsAux(ctx *Context, x interface{}, terms StringSet, depth int) {
 func (s *IndexedState) Add(ctx *Context, id string, x Map) (string, error) {
 	Log(DEBUG, ctx, "IndexedState.Add", "state", s.Name, "factx", x, "id", id)
 	s.forgetCachedRule(id)
+	// The lock is held until the fact has reached storage, too.
+	// If it were released in between, a concurrent Rem (or Add)
+	// for the same id could get its storage write in before ours,
+	// and memory and storage would disagree from then on.
 	s.slock(ctx, false)
+	defer s.sunlock(ctx, false)
 	id, err := s.add(ctx, id, x)
-	s.sunlock(ctx, false)
 
 	if nil != err {
 		return "", err
